@@ -788,7 +788,7 @@ LEVEL_TEXT = ("Machine-checked theorems (Coq 8.16, closed under the global conte
 LEVEL_NOTE = ("Spelling theorems hold at every loop/parser state of their class; 'anywhere' = behind any prefix the loop runs "
               "through (hypothesis `run c pre .. = inl (ls', st')`, which every line ending at that level satisfies: "
               "C08_run_of_done) with the class conditions stated AT the state reached (they are checked by computation in the "
-              "examples; no static characterisation of the reached state is proved, and fs_skip = 0 there is a hypothesis).  "
+              "examples; no static characterisation of the reached state is proved, except flag_subcmd_skip = 0: C08_run_keeps_skip0).  "
               "`--` insertion: levels without allow_missing_positional / dont_delimit_trailing_values / last(true), the `--` not "
               "directly after an option still waiting for values, at least one positional after it.  Classes of the option "
               "spellings as before (single-valued option, no require_equals, occurrence accepted, subcommand_precedence_over_arg "
